@@ -418,20 +418,20 @@ Section Direct.
       + destruct d as [dd|].
         * destruct (parse dd) as [|rd ond] eqn:Ed; try discriminate.
           destruct (t >? nb)%Z eqn:E1.
-          -- intros H; injection H as <-. exists rb, nb. split; auto. exists rd, ond. split; auto. left. split; auto; lia.
+          -- intros H; injection H as <-. exists rb, nb. split; auto. exists rd, ond. split; auto. left. split; auto; zb.
           -- destruct ond as [nd|]; try discriminate.
              destruct (t >? nd)%Z eqn:E2; try discriminate.
              intros H; injection H as <-. exists rb, nb. split; auto. exists rd, (Some nd). split; auto.
-             right. split; [lia|]. exists nd. repeat split; auto; lia.
+             right. split; [zb|]. exists nd. repeat split; auto; zb.
         * destruct (t >? nb)%Z eqn:E1; try discriminate.
-          intros H; injection H as <-. exists rb, nb. repeat split; auto; lia.
+          intros H; injection H as <-. exists rb, nb. repeat split; auto; zb.
       + destruct d as [dd|]; [destruct (parse dd) as [|rd nd]|]; discriminate.
     - intros (rb & nb & -> & H). destruct d as [dd|].
       + destruct H as (rd & ond & -> & [[L ->]|(L & nd & -> & L2 & ->)]).
-        * assert ((t >? nb)%Z = true) as -> by lia. reflexivity.
-        * assert ((t >? nb)%Z = false) as -> by lia.
-          assert ((t >? nd)%Z = true) as -> by lia. reflexivity.
-      + destruct H as [L ->]. assert ((t >? nb)%Z = true) as -> by lia. reflexivity.
+        * assert ((t >? nb)%Z = true) as -> by zb. reflexivity.
+        * assert ((t >? nb)%Z = false) as -> by zb.
+          assert ((t >? nd)%Z = true) as -> by zb. reflexivity.
+      + destruct H as [L ->]. assert ((t >? nb)%Z = true) as -> by zb. reflexivity.
   Qed.
 
   (* a cache miss iff there is no file (0), or the file is a well-formed entry a
@@ -519,7 +519,7 @@ Proof.
   split; [intros E; rewrite E in Hdot; discriminate|].
   split.
   - intros Hs E. apply Hs. apply (f_equal String.length) in E.
-    rewrite (proj2 (file_name_shape sha u)) in E. destruct (sha u); [auto|cbn in E; lia].
+    rewrite (proj2 (file_name_shape sha u)) in E. destruct (sha u); [auto|cbn in E; discriminate E].
   - intros L. rewrite (proj2 (file_name_shape sha u)), L. reflexivity.
 Qed.
 
